@@ -256,7 +256,7 @@ func (e *Engine) eval(st *State, f *Frame, v ssa.Value) Value {
 		if !ok {
 			id = st.alloc(zero(x.Type().(*types.Pointer).Elem()))
 			st.globals[x] = id
-			if uninitAudit && x.Pkg != nil && !initedPkgs[x.Pkg.Pkg.Path()] {
+			if uninitAudit && x.Pkg != nil && !pkgInited(x.Pkg.Pkg.Path()) {
 				uninitReads.Store(x.Pkg.Pkg.Path()+"."+x.Name(), true)
 			}
 		}
@@ -1307,6 +1307,13 @@ func (e *Engine) resolveCall(st *State, f *Frame, c *ssa.CallCommon) (Value, []V
 var traceSub = os.Getenv("VERIF_TRACE")
 var uninitAudit = os.Getenv("VERIF_UNINIT") != ""
 var initedPkgs = map[string]bool{}
+var initedMu sync.Mutex
+
+func pkgInited(p string) bool {
+	initedMu.Lock()
+	defer initedMu.Unlock()
+	return initedPkgs[p]
+}
 var uninitReads sync.Map
 var forkProf map[string]int
 var forkProfMu sync.Mutex
